@@ -17,6 +17,7 @@ type NDHit struct {
 	Pos    token.Pos
 	Detail string
 	Seq    int // ordinal of this kind within the function (construct key = kind + fn + seq)
+	Recv   string // for kind "cache": the struct field (or global) holding the cache
 }
 
 // ScanNondeterminism lists the hits in fn.
@@ -57,6 +58,23 @@ func ScanNondeterminism(fn *ssa.Function) []NDHit {
 					add("rand", in, n)
 				case n == "(*sync.Map).Range":
 					add("syncmap-range", in, n)
+				case strings.HasPrefix(n, "(*github.com/hashicorp/golang-lru.") || strings.HasPrefix(n, "(*github.com/VictoriaMetrics/fastcache.") || strings.HasPrefix(n, "(*sync.Map).") ||
+					strings.HasPrefix(n, "(*github.com/hashicorp/golang-lru/simplelru."):
+					recv := "?"
+					if len(x.Call.Args) > 0 {
+						v := x.Call.Args[0]
+						if u, ok := v.(*ssa.UnOp); ok && u.Op == token.MUL {
+							v = u.X
+						}
+						if t, f := FieldOf(v); t != "" {
+							recv = t + "." + f
+						} else if g, ok := v.(*ssa.Global); ok {
+							recv = "global:" + g.Pkg.Pkg.Name() + "." + g.Name()
+						} else {
+							recv = Desc(x.Call.Args[0])
+						}
+					}
+					out = append(out, NDHit{Kind: "cache", Fn: fn, Instr: in, Pos: in.Pos(), Detail: n + " on " + recv, Seq: -1, Recv: recv})
 				case n == "os.Getenv" || n == "os.LookupEnv" || n == "os.Hostname" || n == "os.Getpid":
 					add("env", in, n)
 				case n == "(reflect.Value).MapKeys" || n == "(reflect.Value).MapRange":
@@ -75,6 +93,88 @@ type RangeLoop struct {
 	EarlyExits []*ssa.BasicBlock // body blocks (other than the header) with an edge leaving the loop
 	Appends    []ssa.Value       // slices appended to inside the loop
 	StrConcat  bool
+}
+
+// CarriedCond returns a description of a branch inside the loop whose condition
+// depends on state written by earlier iterations of the same loop (a map or a
+// local cell updated in the loop, or a loop-header phi): with a map range such
+// a branch makes the outcome depend on iteration order. "" when none.
+func (lp *RangeLoop) CarriedCond() string {
+	written := map[ssa.Value]bool{} // maps / cells written in the loop
+	for b := range lp.Body {
+		for _, in := range b.Instrs {
+			switch x := in.(type) {
+			case *ssa.MapUpdate:
+				written[x.Map] = true
+			case *ssa.Store:
+				written[x.Addr] = true
+			}
+		}
+	}
+	var dep func(v ssa.Value, depth int) string
+	dep = func(v ssa.Value, depth int) string {
+		if depth > 6 || v == nil {
+			return ""
+		}
+		switch x := v.(type) {
+		case *ssa.Phi:
+			if x.Block() == lp.Header {
+				return "loop-carried variable " + x.Comment
+			}
+			for _, e := range x.Edges {
+				if m := dep(e, depth+1); m != "" {
+					return m
+				}
+			}
+		case *ssa.Lookup:
+			if written[x.X] {
+				return "lookup in a map updated inside the loop (" + Desc(x.X) + ")"
+			}
+			return dep(x.Index, depth+1)
+		case *ssa.UnOp:
+			if x.Op == token.MUL && written[x.X] {
+				if _, isAlloc := x.X.(*ssa.Alloc); isAlloc {
+					return "variable assigned inside the loop (" + Desc(x.X) + ")"
+				}
+			}
+			return dep(x.X, depth+1)
+		case *ssa.BinOp:
+			if m := dep(x.X, depth+1); m != "" {
+				return m
+			}
+			return dep(x.Y, depth+1)
+		case *ssa.Extract:
+			return dep(x.Tuple, depth+1)
+		case *ssa.Convert:
+			return dep(x.X, depth+1)
+		case *ssa.ChangeType:
+			return dep(x.X, depth+1)
+		case *ssa.Call:
+			if bi, ok := x.Call.Value.(*ssa.Builtin); ok && bi.Name() == "len" {
+				return dep(x.Call.Args[0], depth+1)
+			}
+		}
+		return ""
+	}
+	var blocks []*ssa.BasicBlock
+	for b := range lp.Body {
+		blocks = append(blocks, b)
+	}
+	sort.Slice(blocks, func(i, j int) bool { return blocks[i].Index < blocks[j].Index })
+	for _, b := range blocks {
+		if b == lp.Header || len(b.Instrs) == 0 {
+			continue
+		}
+		iff, ok := b.Instrs[len(b.Instrs)-1].(*ssa.If)
+		if !ok {
+			continue
+		}
+		// inner loops' own induction tests are fine: skip conditions whose phi lives in an inner header
+		if m := dep(iff.Cond, 0); m != "" {
+			return "branch on " + m
+		}
+	}
+	return ""
 }
 
 // LoopOfRange computes the loop driven by the Next() of a Range instruction.
